@@ -31,27 +31,27 @@ def spec(tier: str, seed: int, which: str = "C18") -> Spec:
         # a root detached on its own first, then changes below it and re-attachment by construction
         KD = 3 if tier == "quick" else 4
         for op in ("detach_self", "detach"):
-            for f in range(H.FALSY_FOREST):
+            for f in range(H.GUIDED_FORESTS):
                 fams.append(Family(f"detached-K{KD}-{op}-forest{f}", H.make_harness(KD, which, [op], H.DETACHED_LATER, forest=f), per_path_timeout=3.0, variables="selectors: receiver per step; operations after the first from a reduced alphabet"))
         for op in firsts:
-            for f in range(H.FALSY_FOREST):
+            for f in range(H.GUIDED_FORESTS):
                 for r in range(5):
                     fams.append(Family(f"stale-K{KS}-{op}-forest{f}-h{r}", H.make_harness(KS, which, [op], later, forest=f, first_recv=r), per_path_timeout=3.0, variables="selectors: receiver per step; operations after the first from a reduced alphabet"))
     if which == "C19":
         KR = 3 if tier == "quick" else 4
         for op in H.DETACHED_WRAPS + ["detach_self"]:
-            for f in range(H.FALSY_FOREST):
+            for f in range(H.GUIDED_FORESTS):
                 kk = 4 if op == "detach_self" else KR
                 # quick: the root of the first tree is the node detached on its own, and no duplicate afterwards
                 recv = 0 if (op == "detach_self" and tier == "quick") else None
                 later_ = [o for o in H.REJECT_LATER if o != "duplicate"] if (op == "detach_self" and tier == "quick") else H.REJECT_LATER
                 fams.append(Family(f"stale-detached-K{kk}-{op}-forest{f}", H.make_harness(kk, which, [op], later_, forest=f, first_recv=recv), per_path_timeout=3.0, variables="selectors: receiver per step; operations after the first from a reduced alphabet"))
     if which == "C19":
-        for f in range(H.FALSY_FOREST):
+        for f in range(H.GUIDED_FORESTS):
             fams.append(Family(f"id-sharing-clone-K3-forest{f}", H.make_harness(3, which, ["duplicate-detached"], ["detach"] if tier == "quick" else H.CLONE_LATER, forest=f, last_ops=H.CLONE_LATER_QUICK if tier == "quick" else None), per_path_timeout=3.0, variables="selectors: receiver / argument per step; first a detached clone (same id as its original), then detach / constructions / replacements over both"))
     if which == "C19":
         # two detached wrappers around one attached node, then a construction over both wrappers
-        for f in range(H.FALSY_FOREST):
+        for f in range(H.GUIDED_FORESTS):
             fams.append(Family(f"shared-child-wrappers-K3-forest{f}", H.make_harness(3, which, ["wrap-detached-tuple"], ["wrap-detached-required", "wrap-detached-tuple"], forest=f, last_ops=["wrap-pair", "replace-child", "attach"]), per_path_timeout=3.0, variables="selectors: receiver / argument per step"))
     if which == "C19":
         # ... and the same with a DETACHED shared node (a root detached first, then two detached wrappers)
@@ -63,7 +63,7 @@ def spec(tier: str, seed: int, which: str = "C18") -> Spec:
         # sibling: rejected at the attach step, and nothing -- the registered twin included -- may change
         twin_later = ["replace_with", "replace-child", "wrap-pair", "wrap-abstract-sequence", "transform-return-existing"]
         for op in H.DETACHED_WRAPS + ["duplicate-detached"]:
-            for f in range(H.FALSY_FOREST):
+            for f in range(H.GUIDED_FORESTS):
                 fams.append(Family(f"detached-twin-K2-{op}-forest{f}", H.make_harness(2, which, [op], twin_later, forest=f), per_path_timeout=3.0, variables="selectors: receiver / argument per step"))
                 if tier != "quick":
                     fams.append(Family(f"detached-twin-K3-{op}-forest{f}", H.make_harness(3, which, [op], twin_later + ["detach", "detach_self"], forest=f), per_path_timeout=3.0, variables="selectors: receiver / argument per step"))
